@@ -27,6 +27,9 @@ type abortRun struct {
 	probeOK  bool
 }
 
+// a frame that is not JSON (the same bytes are appended by the driver for mode "linger")
+var lingerBadFrame = []byte("}{\x00")
+
 func probeOnce(ctx context.Context, c *varlink.Connection, vendor string) bool {
 	cctx, cancel := context.WithTimeout(ctx, 5*time.Second)
 	defer cancel()
@@ -110,11 +113,19 @@ func init() {
 			}
 			var runs []abortRun
 			for _, off := range offList {
-				mode := []string{"half", "hard", "half", "reset"}[g.Intn(4)]
+				mode := []string{"half", "hard", "half", "reset", "linger"}[g.Intn(5)]
 				if mode == "reset" && !useTCP {
 					mode = "hard"
 				}
+				if mode == "linger" {
+					// the client sends the complete frames before the offset, then a frame that is not JSON, and
+					// keeps its end open: the service must end the connection itself and release it at once
+					for off > 0 && c.stream[off-1] != 0 {
+						off--
+					}
+				}
 				r := abortRun{offset: off, mode: mode}
+				lingerReleased := false
 				conn, err := net.Dial(network, target)
 				if err != nil {
 					return err
@@ -128,6 +139,9 @@ func init() {
 					time.Sleep(200 * time.Microsecond)
 				}
 				prefix := c.stream[:off]
+				if mode == "linger" {
+					prefix = append(append([]byte{}, prefix...), lingerBadFrame...)
+				}
 				for _, seg := range g.cut(prefix) {
 					if _, err := conn.Write(seg); err != nil {
 						break
@@ -144,6 +158,24 @@ func init() {
 					conn.SetReadDeadline(time.Now().Add(10 * time.Second))
 					r.replies, _ = io.ReadAll(conn)
 					conn.Close()
+				case "linger":
+					conn.SetReadDeadline(time.Now().Add(10 * time.Second))
+					var rerr error
+					// end of stream or a reset (the service closed with input still unread) = the service ended the
+					// connection; only running into the deadline means it did not
+					r.replies, rerr = io.ReadAll(conn)
+					lingerEnded := true
+					if ne, ok := rerr.(net.Error); ok && ne.Timeout() {
+						lingerEnded = false
+					}
+					for t := 0; t < 5000 && lingerEnded; t++ {
+						if svc.VerifConnCounter() == 1 {
+							lingerReleased = true
+							break
+						}
+						time.Sleep(time.Millisecond)
+					}
+					conn.Close()
 				case "reset":
 					conn.(*net.TCPConn).SetLinger(0)
 					conn.Close()
@@ -159,6 +191,10 @@ func init() {
 						break
 					}
 					time.Sleep(time.Millisecond)
+				}
+				if mode == "linger" {
+					// what counts is the release while the client still held its end open
+					r.released = lingerReleased
 				}
 				r.log = dl.take(c.id)
 				runs = append(runs, r)
